@@ -44,7 +44,11 @@ def coq_bytes(data):
         return '(@nil N)'
     if len(data) <= 8:
         return '[' + '; '.join(str(b) for b in data) + ']%N'
-    return '(unhex %d 0x%s%%N)' % (len(data), data.hex())
+    if len(data) <= 48:
+        return '(unhex %d 0x%s%%N)' % (len(data), data.hex())
+    # unhex is quadratic in the length: long strings are concatenations of 48-octet pieces
+    parts = [data[idx:idx + 48] for idx in range(0, len(data), 48)]
+    return '(List.concat [' + '; '.join('unhex %d 0x%s%%N' % (len(part), part.hex()) for part in parts) + '])'
 
 
 def coq_list(items, typ=None):
